@@ -62,6 +62,15 @@ Theorem C03_ellipse_pt_on_curve : forall s k i,
 Proof. exact ellipse_pt_on_curve. Qed.
 Print Assumptions C03_ellipse_pt_on_curve.
 
+Theorem C03_ellipse_pt_bearing : forall s k i,
+  -90 < lat (e_center s) < 90 ->
+  0 < e_minor s -> e_minor s <= e_major s -> e_major s < PI * Rearth ->
+  -90 < lat (ellipse_pt s k i) < 90 ->
+  exists z : Z,
+    bearing_raw (e_center s) (ellipse_pt s k i) = deg (ellipse_angle k i) + e_rotation s + 360 * IZR z.
+Proof. exact ellipse_pt_bearing. Qed.
+Print Assumptions C03_ellipse_pt_bearing.
+
 Theorem C03_ring_pts_on_curve : forall s k i,
   -90 <= lat (r_center s) <= 90 -> 0 <= r_inner s <= r_outer s -> r_outer s <= PI * Rearth ->
   hdist (r_center s) (ring_outer_pt s k i) = r_outer s /\
